@@ -245,7 +245,10 @@ func (g *schemaGenerator) extractRefNames(t *schemas.Type) (string, string, erro
 
 func (g *schemaGenerator) generateDeclaredType(t *schemas.Type, scope nameScope) (codegen.Type, error) {
 	if decl, ok := g.output.declsBySchema[t]; ok {
-		if t.Dereferenced {
+		// The unmarshaler of an anyOf names its member types <Type>_<i>: a member that was declared
+		// before (a reference, or an inline member of a definition that is merged into another
+		// struct) is made available under that name as well.
+		if t.Dereferenced || t.IsSubSchemaTypeElem() {
 			if decl.Name != scope.string() {
 				alias := &codegen.AliasType{
 					Alias: scope.string(),
